@@ -183,7 +183,7 @@ End Loop.
 Definition never : Z -> bool := fun _ => false.
 
 (* nesting depths at which the polls happened (most recent first): the ticks whose number is a multiple of 512;
-   n = number of the head tick (the counter, by CancelLA_proofs.ticks_count) *)
+   n = number of the head tick (the counter, by the fourth conjunct of CancelLA_proofs.la_cancel_bounded, C29_lookaheads_cancel_bounded) *)
 Fixpoint poll_depths_from (n : Z) (ticks : list Z) : list Z :=
   match ticks with
   | [] => []
